@@ -31,7 +31,12 @@ type tracer struct {
 	stats map[string]int
 }
 
-func (t *tracer) line(s string)    { fmt.Fprintln(t.w, s) }
+func (t *tracer) line(s string) {
+	fmt.Fprintln(t.w, s)
+	if *flagOnly >= 0 {
+		t.w.Flush()
+	}
+}
 func (t *tracer) pending(s string) { fmt.Fprintln(t.w, "(pending "+s+")"); t.w.Flush() }
 
 func TestEngine(t *testing.T) {
